@@ -76,7 +76,9 @@ CLAUSES = {
     "object state": "MuSigTapScript keeps no message-, nonce- or root-dependent state (coefs, coef_lookup, point are fixed "
         "at construction; no memo to model): checked by the object-reuse histories (history:session, history:bip340)",
     "a spend of each leaf by its subset verifies":
-        "correspondence-only (needs the tapscript interpreter of C06/C07): sampled end-to-end through Tx.verify_input",
+        "correspondence-only (needs the tapscript interpreter of C06/C07): sampled end-to-end through "
+        "finalize_p2tr_multisig / Tx.verify_input, every signer's hash type drawn independently from {DEFAULT (64 bytes), "
+        "0x01, 0x02, 0x03, 0x81, 0x82, 0x83}; undefined types 0x04, 0x80, 0x84 on a 65-byte signature must not verify",
     "BIP340 verification": "proved (get_signature_bip340): with the tagged hashes instantiated by SHA-256 the 64 "
         "bytes returned by get_signature satisfy Spec.BIP340.verify (the BIP's algorithm, Buidl.Spec.BIP340) for the "
         "x-only external key — through verify_schnorr_unique, the bridge MuSig.verifySchnorr = Schnorr.verifySchnorr "
@@ -454,7 +456,10 @@ def p_spend(c):
             if cb is None:
                 return False, "no control block for the subset's leaf", "control block"
             tx.initialize_p2tr_multisig(0, cb, leaf.tap_script)
-            sigs = [tx.get_sig_taproot(0, privs[i], ext_flag=1) for i in sub]
+            hts = c.get("hash_types") or [0] * len(sub)     # 0 = SIGHASH_DEFAULT (64-byte signature), else 65 bytes
+            sigs = [tx.get_sig_taproot(0, privs[i], ext_flag=1, hash_type=ht) for i, ht in zip(sub, hts)]
+            if any(len(sg) != (64 if ht == 0 else 65) for sg, ht in zip(sigs, hts)):
+                return False, "signature length does not match the hash type", "64 / 65 bytes"
             tx.finalize_p2tr_multisig(0, sigs)
             ok = tx.verify_input(0)
         else:
@@ -546,9 +551,13 @@ def history_c13(case):
     return out
 
 
+def run_history13(case):
+    return multiparty_c13(case) if case.get("kind") == "multiparty" else history_c13(case)
+
+
 def check_histories13(ctx, drv, cases):
     rec = ctx.rec
-    outs = pmap(history_c13, cases, workers=ctx.workers, chunksize=1)
+    outs = pmap(run_history13, cases, workers=ctx.workers, chunksize=1)
     uniq = sorted({line for o in outs for _, line, _ in o if not line.startswith("#")})
     answers = dict(zip(uniq, par_batch(drv, uniq, workers=ctx.workers)))
     for case, o in zip(cases, outs):
@@ -563,7 +572,7 @@ def check_histories13(ctx, drv, cases):
 
 
 def replay_history13(ctx, case):
-    o = history_c13(case["history"])
+    o = run_history13(case["history"])
     step = case["step"]
     if step >= len(o):
         return False
@@ -572,7 +581,181 @@ def replay_history13(ctx, case):
     return im != m
 
 
-PREDICATES = {"session": p_session, "perm": p_perm, "tree_bijection": p_tree_bijection, "spend": p_spend,
+# --------------------------------------------------------------------------------- multi-party protocol, shared arguments
+def _snap(x):
+    """canonical snapshot of an argument (lists / tuples of points, ints, bytes) for the "does not modify its
+    arguments" predicate"""
+    if isinstance(x, (list, tuple)):
+        return [type(x).__name__] + [_snap(y) for y in x]
+    if hasattr(x, "xonly") and hasattr(x, "x"):
+        return tok_pt(x)
+    if hasattr(x, "secret"):
+        return ("priv", x.secret)
+    if isinstance(x, (bytes, bytearray)):
+        return xb(x)
+    return repr(x)
+
+
+class ArgGuard:
+    """calls a function and checks that none of its (mutable) arguments changed"""
+
+    def __init__(self):
+        self.bad = []
+
+    def call(self, name, fn, *args, **kw):
+        before = [_snap(a) for a in args] + [_snap(v) for v in kw.values()]
+        r = fn(*args, **kw)
+        after = [_snap(a) for a in args] + [_snap(v) for v in kw.values()]
+        if before != after:
+            self.bad.append(name)
+        return r
+
+
+def multiparty_c13(case):
+    """the protocol as several parties run it: every participant builds its own MuSigTapScript from the SAME list
+    object of public keys, generates its nonce pair, and then calls nonce_sums / compute_r / compute_k / sign on the
+    SAME broadcast list object of nonce pairs; the partial signatures are collected in one list and every
+    participant calls get_signature on it.  All parties must derive the same R, every party must obtain the same,
+    BIP340-valid signature (key tweaked with the current root, computed from fresh objects), and no call may modify
+    an argument.  Returns [(kind, model request line | #pseudo, implementation answer)]"""
+    from buidl.ecc import PrivateKey
+    from buidl.taproot import MuSigTapScript
+    ds, root, sig_hash = case["ds"], unx(case["root"]), unx(case["sig_hash"])
+    n = len(ds)
+    G_ = ArgGuard()
+    out = []
+    privs = [PrivateKey(d) for d in ds]
+    pubs = [p.point for p in privs]                      # ONE list object handed to every constructor
+    musigs = [G_.call("MuSigTapScript.__init__", MuSigTapScript, pubs) for _ in range(n)]
+    secrets, pairs = [], []                              # `pairs` is the broadcast list
+    with patched_randbelow([v for k1, k2 in case["nonces"] for v in (k1, k2)]):
+        for i in range(n):
+            ns, np_ = G_.call("generate_nonces", musigs[i].generate_nonces)
+            secrets.append(ns)
+            pairs.append(np_)
+    rs, partials = [], []
+    fields = [tok_pt(musigs[0].point)]
+    try:
+        for i in range(n):
+            sums = G_.call("nonce_sums", musigs[i].nonce_sums, pairs)
+            h = G_.call("compute_coefficient", musigs[i].compute_coefficient, sums, sig_hash)
+            r = G_.call("compute_r", musigs[i].compute_r, sums, sig_hash)
+            k = G_.call("compute_k", musigs[i].compute_k, secrets[i], sums, sig_hash)
+            s_i = G_.call("sign", musigs[i].sign, privs[i], k, r, sig_hash, root)
+            rs.append(r)
+            partials.append(s_i)
+            if i == 0:
+                fields += [tok_pt(sums[0]), tok_pt(sums[1]), str(h), tok_pt(r)]
+        same_r = all(tok_pt(r) == tok_pt(rs[0]) for r in rs)
+        fields.append(fmt_nats(partials))
+        sigs = []
+        for i in range(n):
+            sg = G_.call("get_signature", musigs[i].get_signature, sum(partials), rs[i], sig_hash, root)
+            sigs.append(sg.serialize())
+        fields.append(xb(sigs[0]))
+        fresh = MuSigTapScript([PrivateKey(d).point for d in ds]).point
+        ext = fresh.tweaked_key(root) if root else fresh.even_point()
+        valid = all(sg == sigs[0] for sg in sigs) and bip340_verify(ext.xonly(), sig_hash, sigs[0])
+    except Exception:
+        same_r, valid = (len(rs) > 0 and all(tok_pt(r) == tok_pt(rs[0]) for r in rs)), False
+        fields += [REJECT] * (7 - len(fields))
+    ptoks = " ".join(f"{d} {k1} {k2}" for d, (k1, k2) in zip(ds, case["nonces"]))
+    out.append(("multiparty:same-R", "#all participants derive the same R", "1" if same_r else REJECT))
+    out.append(("multiparty:bip340", f"#every participant obtains the same BIP340-valid signature, root {xb(root)}",
+                "1" if valid else REJECT))
+    out.append(("multiparty:args-unmodified", "#no call modifies its arguments",
+                "1" if not G_.bad else "modified by " + ",".join(sorted(set(G_.bad)))))
+    out.reverse()      # report a modified argument / diverging R before the derived symptoms
+    out.append(("multiparty:session", f"session {n} {ptoks} {xb(sig_hash)} {xb(root)} - - none", " ".join(fields)))
+    return out
+
+
+def timelock_prefix(lock, seq):
+    """the commands `<n> OP_CLTV OP_DROP` / `<n> OP_CSV OP_DROP`, computed here from the script number rules"""
+    def num(v):
+        if v == 0:
+            return 0
+        if v <= 16:
+            return 0x50 + v
+        b = bytearray()
+        while v:
+            b.append(v & 0xFF)
+            v >>= 8
+        if b[-1] & 0x80:
+            b.append(0)
+        return bytes(b)
+    if lock is not None:
+        return [num(lock), 0xB1, 0x75]
+    if seq is not None:
+        return [num(seq), 0xB2, 0x75]
+    return []
+
+
+def p_tree_timelock(c):
+    """every tree generator driven with a timelock: every leaf of every subtree carries exactly the requested prefix,
+    every k-subset owns exactly one MultiSig leaf (multi / everything) and exactly one MuSig leaf (musig / msl /
+    everything) with that prefix, the single leaf is the n-key script with it; the list of points is not modified"""
+    from buidl.taproot import MultiSigTapScript, MuSigTapScript, TapRootMultiSig
+    from buidl.timelock import Locktime, Sequence
+    pts = points_of(c["ds"])
+    k, lock, seq = c["k"], c["lock"], c["seq"]
+    kw = {"locktime": None if lock is None else Locktime(lock), "sequence": None if seq is None else Sequence(seq)}
+    pre = timelock_prefix(lock, seq)
+    G_ = ArgGuard()
+    tr = G_.call("TapRootMultiSig.__init__", TapRootMultiSig, pts, k)
+    want_multi = [pre + list(MultiSigTapScript(sub, k).commands) for sub in subsets(pts, k)]
+    want_musig = [pre + list(MuSigTapScript(sub).commands) for sub in subsets(pts, k)] if k >= 2 else None
+    want_single = [pre + list(MultiSigTapScript(pts, k).commands)]
+    expect = {"single_leaf": want_single, "multi_leaf_tree": want_multi}
+    if want_musig is not None:
+        expect["musig_tree"] = want_musig
+        expect["musig_and_single_leaf_tree"] = want_single + want_musig
+        expect["everything_tree"] = want_single + want_multi + want_musig
+    for name, want in expect.items():
+        tree = G_.call("TapRootMultiSig." + name, getattr(tr, name), **kw)
+        got = [l.tap_script.commands for l in tree.leaves()]
+        for cmds in got:
+            if cmds[: len(pre)] != pre:
+                return False, f"{name}: a leaf lacks the timelock prefix: {tok_cmds(cmds)[:120]}", tok_cmds(pre)
+        for w in want:
+            cnt = sum(1 for g_ in got if g_ == w)
+            exp = sum(1 for w2 in want if w2 == w)     # 1, except that for k = n the single leaf equals the n-subset's leaf
+            if cnt != exp:
+                return False, f"{name}: the leaf {tok_cmds(w)[:100]} occurs {cnt} times", exp
+        if len(got) != len(want):
+            return False, f"{name}: {len(got)} leaves", len(want)
+    if G_.bad:
+        return False, "modified by " + ",".join(sorted(set(G_.bad))), "arguments unmodified"
+    return True, len(expect), len(expect)
+
+
+def p_spend_badtype(c):
+    """negative stream: a 65-byte signature whose last byte is an undefined hash type (0x04, 0x80, 0x84) must not
+    verify — whether finalize_p2tr_multisig raises or verify_input answers False"""
+    from buidl.ecc import PrivateKey
+    from buidl.taproot import MultiSigTapScript, TapRootMultiSig
+    privs = [PrivateKey(d) for d in c["ds"]]
+    pts = [p.point for p in privs]
+    k, sub = c["k"], c["subset"]
+    tr = TapRootMultiSig(pts, k)
+    internal = tr.default_internal_pubkey
+    tree = tr.multi_leaf_tree()
+    tx = make_tx(internal.p2tr_script(tree.hash()))
+    with contextlib.redirect_stdout(io.StringIO()):
+        leaf = MultiSigTapScript([pts[i] for i in sub], k).tap_leaf()
+        cb = tree.control_block(internal, leaf)
+        tx.initialize_p2tr_multisig(0, cb, leaf.tap_script)
+        sigs = [tx.get_sig_taproot(0, privs[i], ext_flag=1) for i in sub]
+        sigs[c["which_sig"]] = sigs[c["which_sig"]][:64] + bytes([c["bad"]])
+        try:
+            tx.finalize_p2tr_multisig(0, sigs)
+            ok = bool(tx.verify_input(0))
+        except Exception:
+            ok = False
+    return not ok, ok, False
+
+
+PREDICATES = {"spend_badtype": p_spend_badtype, "tree_timelock": p_tree_timelock, "session": p_session, "perm": p_perm, "tree_bijection": p_tree_bijection, "spend": p_spend,
               "spend_wrong": p_spend_wrong}
 
 
@@ -798,6 +981,14 @@ def run(ctx):
                          "touch": [xb(rng.choice([ra, rb, b""]))] if si % 2 == 1 else []})
         hcases.append({"ds": [k[0] for k in ks], "sessions": sess})
         rec.count(f"history:n={n}")
+    # the protocol as several parties run it: shared list objects (public keys, broadcast nonce pairs, partial sigs)
+    for hi in range(ctx.n(8, 60)):
+        n = 2 + hi % 4
+        ks = pick_set(n)
+        hcases.append({"kind": "multiparty", "ds": [k[0] for k in ks],
+                       "nonces": [(rng.randrange(1, N), rng.randrange(1, N)) for _ in range(n)],
+                       "sig_hash": xb(rbytes(rng, 32)), "root": xb(rbytes(rng, 32) if hi % 2 else b"")})
+        rec.count(f"multiparty:n={n}")
     check_histories13(ctx, drv, hcases)
     if rec.violations or rec.disagreements:
         rec.note("stopped after the object-reuse histories: failing input found")
@@ -821,10 +1012,21 @@ def run(ctx):
         toks = f"{n} {' '.join(ptok(x) for x in ks)} {k} {'-' if l is None else l} {'-' if s is None else s}"
         for which in ("single", "multi", "musig") if n < 10 else ("single",):
             add(f"trms:{which}", f"trms {which} {toks}", determined=False)
-    ks = pick_set(3)
-    toks = f"3 {' '.join(ptok(x) for x in ks)} 2 - -"
-    add("trms:msl", f"trms msl {toks}")
-    add("trms:everything", f"trms everything {toks}")
+    # every generator with a timelock: locktime alone, sequence alone (determined), both (refused)
+    tl_cases = [(2, 3, None, None), (2, 3, 5, None), (2, 3, None, 9), (2, 2, 500000, None), (2, 2, None, 0x400003),
+                (3, 4, None, 144), (1, 2, 17, None), (2, 3, 3, 4)]
+    tl_cases += [(rng.randrange(2, n + 1), n, *rng.choice([(rng.getrandbits(rng.choice([4, 8, 16, 31])), None),
+                                                         (None, rng.getrandbits(rng.choice([4, 8, 16, 22])))]))
+                 for n in [rng.choice([2, 3, 3, 4]) for _ in range(ctx.n(3, 20))]]
+    for (k, n, l, sq) in tl_cases:
+        ks = pick_set(n)
+        toks = f"{n} {' '.join(ptok(x) for x in ks)} {k} {'-' if l is None else l} {'-' if sq is None else sq}"
+        for which in ("single", "multi", "musig", "msl", "everything"):
+            add(f"trms:{which}:timelock", f"trms {which} {toks}")
+        rec.count("trms:timelock=" + ("both" if l is not None and sq is not None else "locktime" if l is not None
+                                      else "sequence" if sq is not None else "none"))
+        if not (l is not None and sq is not None):
+            preds.append(("tree_timelock", {"ds": [x[0] for x in ks], "k": k, "lock": l, "seq": sq}))
     for n in (0, 1, 2, 3, 4, 5, 6, 7, 10, 11):
         ls = [("L", (0xC0, ("C", [bytes([i]), 0x51]))) for i in range(n)]
         add("combine", f"combine {n} {' '.join(tok_tree(l) for l in ls)}".rstrip())
@@ -839,14 +1041,25 @@ def run(ctx):
         ks = pick_set(n)
         subs = subsets(list(range(n)), k)
         sub = subs[rng.randrange(len(subs))]
-        spend_cases.append(("spend", {"ds": [x[0] for x in ks], "k": k, "which": "multi", "subset": sub}))
+        hts = [rng.choice([0x00, 0x01, 0x02, 0x03, 0x81, 0x82, 0x83]) for _ in sub]   # per signer, independently
+        for ht in hts:
+            rec.count(f"spend:hash_type={ht:#04x}")
+        spend_cases.append(("spend", {"ds": [x[0] for x in ks], "k": k, "which": "multi", "subset": sub, "hash_types": hts}))
         if k >= 2:
             spend_cases.append(("spend", {"ds": [x[0] for x in ks], "k": k, "which": "musig", "subset": sub,
                                           "nonces": [rng.randrange(1, N) for _ in range(2 * k)]}))
             if len(spend_cases) % 3 == 0:
                 spend_cases.append(("spend_wrong", {"ds": [x[0] for x in ks], "k": k, "subset": sub}))
     ks = pick_set(3)
-    spend_cases.append(("spend", {"ds": [x[0] for x in ks], "k": 2, "which": "single", "subset": [0, 2]}))
+    spend_cases.append(("spend", {"ds": [x[0] for x in ks], "k": 2, "which": "single", "subset": [0, 2],
+                                  "hash_types": [0x81, 0x83]}))
+    # every defined non-default type at least once (the draw above is random), then the undefined ones
+    for a, b in ((0x01, 0x81), (0x02, 0x82), (0x03, 0x83)):
+        spend_cases.append(("spend", {"ds": [x[0] for x in ks], "k": 2, "which": "multi", "subset": [0, 1],
+                                      "hash_types": [a, b]}))
+    for bad in (0x04, 0x80, 0x84):
+        spend_cases.append(("spend_badtype", {"ds": [x[0] for x in ks], "k": 2, "subset": [1, 2], "bad": bad,
+                                              "which_sig": bad % 2}))
     preds += spend_cases
 
     flush()
